@@ -68,12 +68,12 @@ def prints_of(res, prefix):
     return [tla_json(p, prefix) for p in res.prints if p.startswith(prefix)]
 
 
-def write_cfg(name, invariant, max_nodes, d=3):
+def write_cfg(name, invariant, max_nodes, d=3, mod=1, rem=0):
     os.makedirs(WORKD, exist_ok=True)
     path = os.path.join(WORKD, name)
     with open(path, "w") as f:
         f.write("SPECIFICATION Spec\nCHECK_DEADLOCK FALSE\nCONSTANTS\n  MaxNodes = %d\n  D = %d\n"
-                "INVARIANTS\n  %s\n" % (max_nodes, d, invariant))
+                "  SampleMod = %d\n  SampleRem = %d\nINVARIANTS\n  %s\n" % (max_nodes, d, mod, rem, invariant))
     return path
 
 
@@ -979,38 +979,25 @@ def verdict_of(outcome):
 
 
 def c08_vcases(check, tier):
-    cfg = write_cfg("MC_Types8_enum.cfg", "Emit8", 2)
-    res = common.tlc("MC_Types", cfg, workers=8, timeout=1500)
+    """TLC enumerates every graph with <= 2 nodes (all of them emit cases) and the graphs with 3
+    nodes; in the quick tier only a seeded residue class of the 3-node graphs emits cases."""
+    mod = int(os.environ.get("TYPES_VMOD", "61" if tier == "quick" else "1"))
+    cfg = write_cfg("MC_Types8_enum.cfg", "Emit8", 3, mod=mod, rem=common.seed() % mod)
+    res = common.tlc("MC_Types", cfg, workers=8, timeout=6000)
     if not res.ok:
         raise common.ToolError("MC_Types (Emit8) failed: " + res.out[-800:])
-    check.add_tlc("MC_Types8(enum<=2)", res)
+    check.add_tlc("MC_Types8(enum<=3, 1/%d of the 3-node graphs)" % mod, res)
     vcs = prints_of(res, VCASE_PREFIX)
     check.cov["enumerated_vcases"] = len(vcs)
-    if tier == "thorough":
-        cfg = write_cfg("MC_Types8_enum3.cfg", "Emit8", 3)
-        res = common.tlc("MC_Types", cfg, workers=8, timeout=6000)
-        check.add_tlc("MC_Types8(enum<=3)", res)
-        more = prints_of(res, VCASE_PREFIX)
-    else:
-        cfg = write_cfg("MC_Types8_sim.cfg", "Emit8", 4)
-        res = common.tlc("MC_Types", cfg, workers=8, timeout=600, simulate="num=%s" %
-                         os.environ.get("TYPES_VSIM", "700"), depth=6, seed_=common.seed())
-        if res.eval_error:
-            raise common.ToolError("MC_Types (Emit8, simulate) failed: " + res.out[-800:])
-        check.add_tlc("MC_Types8(simulate<=4)", res)
-        more = prints_of(res, VCASE_PREFIX)
-    seen = {json.dumps(v, sort_keys=True) for v in vcs}
-    extra = []
-    for v in more:
-        key = json.dumps(v, sort_keys=True)
-        if key not in seen:
-            seen.add(key)
-            extra.append(v)
-    rng = random.Random(common.seed())
-    rng.shuffle(extra)
-    cap = int(os.environ.get("TYPES_VCASES", "6000" if tier == "quick" else "400000"))
-    check.cov["sampled_vcases"] = min(len(extra), max(cap - len(vcs), 0))
-    return vcs + extra[:max(cap - len(vcs), 0)]
+    cap = int(os.environ.get("TYPES_VCASES", "9000" if tier == "quick" else "10000000"))
+    if len(vcs) > cap:
+        rng = random.Random(common.seed())
+        small = [v for v in vcs if len(v["g"]["types"]) <= 3]
+        big = [v for v in vcs if len(v["g"]["types"]) > 3]
+        rng.shuffle(big)
+        vcs = small + big[:max(cap - len(small), 0)]
+    check.cov["vcases_run"] = len(vcs)
+    return vcs
 
 
 def run_c08(prop, tier):
